@@ -30,6 +30,24 @@ def increments_table(kind):
         inc = pd.DataFrame(np.hstack([dt[:, None], theta, dv]), index=pd.Index(times[1:], name='time'),
                            columns=['dt', 'theta_x', 'theta_y', 'theta_z', 'dv_x', 'dv_y', 'dv_z'])
         return times, inc
+    if kind in ('deadband', 'dupstamps'):
+        # deadband: some gyro increments are EXACTLY zero (quantised / dead-band gyro) right after non-zero ones;
+        # dupstamps: a 200 Hz IMU logged by a 10 ms clock - stamps repeat in pairs and the first one equals the
+        # start time (the integrator works on rows, the stamps are labels)
+        dt = np.full(N_ROWS, 0.5 if kind == 'deadband' else 0.005)
+        if kind == 'deadband':
+            times = 8.0 + np.concatenate([[0.0], np.cumsum(dt)])
+        else:
+            times = 8.0 + np.concatenate([[0.0], 0.01 * (np.arange(1, N_ROWS + 1) // 2)])
+        theta = np.stack([0.11 * np.cos(0.7 * k + 0.2), -0.083 * np.sin(1.1 * k + 0.5),
+                          0.151 + 0.0417 * k], axis=1) * dt[:, None]
+        if kind == 'deadband':
+            theta[[2, 3, 6, 9]] = 0.0
+        dv = np.stack([1.3 * np.sin(0.9 * k + 0.1), -0.77 * np.cos(0.6 * k + 0.3), -9.81 + 0.5 * np.sin(1.3 * k)],
+                      axis=1) * dt[:, None]
+        inc = pd.DataFrame(np.hstack([dt[:, None], theta, dv]), index=pd.Index(times[1:], name='time'),
+                           columns=['dt', 'theta_x', 'theta_y', 'theta_z', 'dv_x', 'dv_y', 'dv_z'])
+        return times, inc
     if kind == 'vertical':
         dt = np.array([0.5, 0.25, 0.5, 1.0, 0.5, 0.5, 0.125, 0.5, 0.75, 0.5])
         az = -9.81 + 19.6 * np.sin(1.3 * k + 0.4)
